@@ -506,6 +506,7 @@ M(b1) M(b3) M(b8) M(b9) M(b17)
     (void)(drv::clv<bf>() != drv::clv<bf>()); \
     (void)fcppt::container::bitfield::is_subset_eq(drv::clv<bf>(), drv::clv<bf>()); \
     (void)fcppt::container::bitfield::init<bf>(drv::clv<drv::fn<bool(en)>>()); \
+    (void)fcppt::container::bitfield::init<bf>(drv::clv<drv::fn<unsigned(en)>>()); /* a predicate whose result is only CONVERTIBLE to bool */ \
     (void)std::hash<bf>{}(drv::clv<bf>()); \
     (void)fcppt::container::bitfield::hash<bf>{}(drv::clv<bf>()); \
     (void)(drv::lv<std::ostream>() << drv::clv<bf>()); \
